@@ -1,2 +1,39 @@
-(* placeholder until the theorems are integrated *)
-From SE Require Import Model.System.
+(* C07 - TTL expiry removes exactly the stale series.
+   The registry's expiry bookkeeping (LastRegisteredAt, TTL, VecKey, remembered Labels, Delete on
+   the vector) refines the flat account of Spec/SeriesSpec.v, in which the property can be read
+   off directly:
+     - a sample that is applied sets last := now and ttl := the ttl its mapping has NOW
+       (C07_sample_sets_clock; after a reload the next sample installs the new ttl);
+     - the sweep removes a series iff ttl <> 0 and last + ttl < now - never earlier, and ttl 0
+       never expires (C07_sweep_exact);
+     - a series created after expiry starts from the zero value updated by that sample alone. *)
+From SE Require Import Spec.SeriesSpec Proofs.SeriesProofs.
+
+Theorem C07_registry_refines_flat : stmt_registry_refines_flat.
+Proof. exact registry_refines_flat_ok. Qed.
+Print Assumptions C07_registry_refines_flat.
+
+Theorem C07_sweep_exact : stmt_sweep_exact.
+Proof. exact sweep_exact_ok. Qed.
+Print Assumptions C07_sweep_exact.
+
+Theorem C07_sample_sets_clock : stmt_sample_sets_clock.
+Proof. exact sample_sets_clock_ok. Qed.
+Print Assumptions C07_sample_sets_clock.
+
+(* Non-vacuity: ttl 2, sample at 0, sweeps at 2 (kept: not older than the ttl) and 3 (removed). *)
+Definition c07_event : event := {| e_kind := KGauge false; e_name := [x67]; e_value := f_zero; e_labels := [] |}.
+Definition c07_defaults : defaults :=
+  {| df_observer := ObsDefault; df_disable_ordering := false; df_ttl := 2;
+     df_summary := df_summary zero_defaults; df_buckets := [] |}.
+Definition c07_witness : bool :=
+  match flat_run fx0 [XEvent c07_defaults 0%Z c07_event None; XSweep 2%Z] with
+  | Some a =>
+    match flat_run a [XSweep 3%Z] with
+    | Some b => match flat_lookup (fx_state a) [x67] [] [], flat_lookup (fx_state b) [x67] [] [] with
+                | Some _, None => true | _, _ => false end
+    | None => false end
+  | None => false
+  end.
+Example C07_example : c07_witness = true.
+Proof. vm_compute. reflexivity. Qed.
